@@ -269,7 +269,7 @@ producers of the sample queues" (`plock = false`) slot safety is FALSE: the sche
 second producer overwrite the initialised slot 0 (first sample lost and leaked; replayed on the real
 code: `sched:2:leaked-sample`, and with a stalled producer `sched:2:crash-signal-11`). -/
 theorem multi_producer_unsafe_without_lock_witness :
-    ¬ (∀ ls : List Label, (run (St.init ⟨false, false⟩ 2 (2 ^ 64) 0) ls).ring.bad = []) := by
+    ¬ (∀ ls : List Label, (run (St.init ⟨false, false, false⟩ 2 (2 ^ 64) 0) ls).ring.bad = []) := by
   intro h
   have := h twoProducerSchedule
   revert this
@@ -289,7 +289,7 @@ def lateCloseSchedule : List Label :=
 while a pushed sample is still queued and is never delivered (replayed on the real code:
 `sched:1:eos-before-drained`). -/
 theorem eos_before_drained_witness :
-    ¬ (∀ ls : List Label, let s := run (St.init ⟨true, false⟩ 1 (2 ^ 64) 0) ls
+    ¬ (∀ ls : List Label, let s := run (St.init ⟨true, false, false⟩ 1 (2 ^ 64) 0) ls
         s.stopCalled = false → CRes.eos ∈ s.cres → s.ring.hcount = s.ring.tcount) := by
   intro h
   have := h lateCloseSchedule
@@ -308,7 +308,7 @@ forever: every source is dropped and `notify_waiters` has run, yet the consumer'
 registered and was never woken (replayed on the real code: `sched:1:close-never-wakes-consumer`;
 same window for `stop()`: `sched:1:stop-never-wakes-consumer`). -/
 theorem lost_wakeup_witness :
-    let s := run (St.init ⟨true, false⟩ 1 (2 ^ 64) 0) lostWakeupSchedule
+    let s := run (St.init ⟨true, false, false⟩ 1 (2 ^ 64) 0) lostWakeupSchedule
     s.closed = true ∧ s.live = [] ∧ s.pp 0 = .gone ∧ s.cp = .await2 ∧ s.ntf.woken = false ∧
     blocked s (.cons false) = true := by
   decide
